@@ -116,12 +116,17 @@ def prog_event(tid, o, i, fl, placement):
             fns.add(g['w_orig'], 'f1'); fns.add(g['inner'], 'f2')
             # wrap-only decorator: the expected value is what the wrapped function itself declares
             declared, agree = outcome_full(declared_thunk(g['w_orig'], g['inner'], fl), fns), 'ps'
-        elif base == 'auto_param':
+        elif base in ('auto_param', 'auto_param_method'):
             fn, plain_target = g['w'], g['w']
-            codes = {g['w0'].__code__}
-        elif base == 'auto_param_method':
-            fn, plain_target = g['w'], g['w']
-            codes = {g['K'].w0.__code__}
+            w0 = g['w0'] if base == 'auto_param' else g['K'].w0
+            codes = {w0.__code__}
+            fns.add(w0, 'f1'); fns.add(g['inner'], 'f2')
+            # "discovery looks through the partial using the bound arguments": the declaration equivalent to partial(w0, inner) /
+            # partial(K().w0, inner) is forwards(w0, inner, ...) with the bound leading parameters (h / self and h) removed
+            from sigtools import signatures as _s, specifiers as _sp
+            declared = outcome_full(lambda: _s.mask(_sp.forwards(w0, g['inner'], fl['n'], *fl['names'], use_varargs=fl['uva'], use_varkwargs=fl['uvk'],
+                                                                 hide_args=fl['ha'], hide_kwargs=fl['hk'], partial=fl['partial']), 1 if base == 'auto_param' else 2), fns)
+            agree = 'ps'
         elif base == 'auto_hint':
             fn, plain_target = g['w'], g['w']
             codes = {g['w'].func.__code__}
